@@ -59,9 +59,9 @@ pub fn generate(rng: &mut Rng, property: &str, deep: bool) -> BScn {
         let mut pairs: Vec<(Key, Key)> = Vec::new();
         for from in 0..n_keys {
             if rng.chance(0.6) {
-                // no self loops
+                // rarely a self loop ("when k ends, play k again"); otherwise another key
                 let mut to = rng.usize_below(n_keys);
-                if to == from {
+                if to == from && !rng.chance(0.3) {
                     to = (to + 1) % n_keys;
                 }
                 pairs.push((from as Key, to as Key));
